@@ -209,7 +209,7 @@ class Run:
 
 	def rec(self, i: int, v: Any) -> Any:
 		try:
-			d = X.describe(v, class_name)
+			d = refine(X.describe(v, class_name))
 		except X.Unsupported:
 			return v
 		except Exception:  # noqa: BLE001 - exotic __eq__/__hash__ of user values never matter here
@@ -267,6 +267,51 @@ def parse_ty(s: str) -> tuple[str, list[Any]]:
 	if pos != len(s):
 		raise ValueError(s)
 	return t
+
+
+def join(a: tuple[str, list[Any]], b: tuple[str, list[Any]]) -> tuple[str, list[Any]] | None:
+	"""the least description both a and b are instances of, where `Unknown` (an empty container's element type) is below everything:
+	list<Unknown> ⊔ list<int> = list<int>; None when the two differ in anything else"""
+	if a == ('Unknown', []):
+		return b
+	if b == ('Unknown', []):
+		return a
+	if a[0] != b[0] or len(a[1]) != len(b[1]) or a[0] == 'Union':
+		return None
+	args = [join(x, y) for x, y in zip(a[1], b[1])]
+	return None if any(x is None for x in args) else (a[0], args)
+
+
+def show_ty(t: tuple[str, list[Any]]) -> str:
+	return t[0] + (f"<{', '.join(show_ty(a) for a in t[1])}>" if t[1] else '')
+
+
+def refine(desc: str) -> str:
+	"""X.describe names the element type of a container by the Union of its items' descriptions; an EMPTY container among the items
+	(`[[], [1]]`: list<Unknown> next to list<int>) is an instance of its siblings' type, so such members are merged: the value is a
+	list of int lists, a determined type. Descriptions that differ in anything but `Unknown` stay a Union (undetermined)."""
+	if 'Union<' not in desc or 'Unknown' not in desc:
+		return desc
+	try:
+		t = parse_ty(desc)
+	except ValueError:
+		return desc
+
+	def go(t: tuple[str, list[Any]]) -> tuple[str, list[Any]]:
+		args = [go(a) for a in t[1]]
+		if t[0] != 'Union':
+			return (t[0], args)
+		out: list[tuple[str, list[Any]]] = []
+		for m in args:
+			for k, o in enumerate(out):
+				j = join(o, m)
+				if j is not None:
+					out[k] = j
+					break
+			else:
+				out.append(m)
+		return out[0] if len(out) == 1 else ('Union', out)
+	return show_ty(go(t))
 
 
 def denotes(t: tuple[str, list[Any]], d: tuple[str, list[Any]]) -> bool:
@@ -358,7 +403,7 @@ def op_name(n: ast.AST) -> str:
 # failing input classes listed as known findings (the other names computed below are repaired: listed as fixed)
 UNDERSTOOD = {'dict-get-missing-key', 'list-literal-class-dedup', 'union-of-subclasses-attribute', 'ternary-union-of-containers',
 	'tuple-slice-nonliteral-bounds', 'abs-of-bool', 'min-max-mixed-numeric', 'list-of-dict-items', 'boolop-nonbool-operands', 'explicit-init-call',
-	'generic-method-on-indirect-subclass', 'generic-method-nested-type-argument', 'operator-operand-indirect-subclass', 'shift-reflected-user-operand', 'spread-first-type-argument'}
+	'generic-method-on-indirect-subclass', 'generic-method-nested-type-argument', 'operator-operand-indirect-subclass', 'shift-reflected-user-operand', 'spread-first-type-argument', 'dict-literal-empty-first-value'}
 
 CONTAINER_HEADS = ('list', 'dict', 'tuple')
 BINOP_DUNDER = {'Add': '__add__', 'Sub': '__sub__', 'Mult': '__mul__', 'Div': '__truediv__', 'Mod': '__mod__', 'BitOr': '__or__', 'BitAnd': '__and__',
@@ -496,10 +541,25 @@ def canonical_key(raw: str, site: dict[str, Any], real: str, runtime: list[str],
 			# (the items of the literal: the source of a spread item `*e` / `**e` is not one)
 			srcs = [x.value for x in dn.elts if isinstance(x, ast.Starred)] if isinstance(dn, ast.List) else [v for k, v in zip(dn.keys, dn.values) if k is None]
 			spread = {(x.lineno, x.col_offset, x.end_lineno, x.end_col_offset) for x in srcs}
-			reals = [r for s2, r in descendants if s2['parent'] == ds['id'] and s2['span'] not in spread]
+			reals = [r for s2, r in sorted(((s2, r) for s2, r in descendants if s2['parent'] == ds['id'] and s2['span'] not in spread), key=lambda sr: sr[0]['id'])]
+			if isinstance(dn, ast.Dict):
+				reals = reals[len(reals) // 2:] if not spread and len(reals) % 2 == 0 else reals     # the values (ast visits all keys, then all values)
 			heads = [r.split('<')[0] for r in reals]
-			if any(heads.count(h) > 1 and len({r for r in reals if r.split('<')[0] == h}) > 1 for h in set(heads)):
-				return 'list-literal-class-dedup'
+			if isinstance(dn, ast.Dict) and reals and 'Unknown' in reals[0] and reals[0].split('<')[0] in CONTAINER_HEADS and any('Unknown' not in r for r in reals[1:]):
+				# on_dict takes the first item whose value is not of class Unknown: an EMPTY container as the first value is one
+				return 'dict-literal-empty-first-value'
+			# on_list keeps one element type per class, the LAST one: the answer is wrong exactly when the last item of a class does not
+			# cover an earlier one of that class (`[[1], []]`, `[[None], [1]]`); when it does (`[[], [1]]`) the code is right and a mismatch
+			# there is not this finding
+			for h in set(heads):
+				same = [r for r in reals if r.split('<')[0] == h]
+				if len(same) > 1 and isinstance(dn, ast.List):
+					try:
+						last = parse_ty(same[-1])
+						if any(join(last, parse_ty(r)) != last for r in same[:-1]):
+							return 'list-literal-class-dedup'
+					except ValueError:
+						return 'list-literal-class-dedup'
 	if any(GENERIC_OF_UNION.search(r) for _, r in [*kids, *descendants]):
 		return 'template-union-first-member'
 	return raw
